@@ -768,7 +768,7 @@ func ruleK4(c *Ctx, id string) {
 // wrong block index shows only on disks with more than one bitmap block).
 func ruleK7(c *Ctx, id string) {
 	c.R.Rule(id, "run-time bitmap writes address bit n of the bitmap region: WriteBits writes one bit at addr.MkBitAddr(start, n) with value 1 << (n % 8) (complemented for frees); PreCommit writes the allocated bits before the freed bits", 6)
-	if c.V.WriteBits == nil || c.V.OverWrite == nil {
+	if c.V.PreCommit == nil || c.V.OverWrite == nil {
 		return
 	}
 	ruleWriteBits(c, id)
